@@ -33,6 +33,15 @@ for pend in (False, True):
     else:
         c.ensures('text-only-at-line-start', "out_is(output) and self._line_pending is True")
 
+    # text that itself ends the line (printf "...\\n") leaves no line open: what follows starts a line and gets no separator
+    c = contract(SO, 'StdOutOutput.out', serves=['C19'], name='StdOutOutput.out[pending=%s, any text]' % pend)
+    def _setup(b, case, pend=pend):
+        b.ghost('Out', PyList())
+        return {'self': sink(b, pend), 'output': b.sym('str', 'text')}
+    c.setup(_setup)
+    c.ensures('separator-only-inside-a-line', "out_is(' ', output)" if pend else "out_is(output)")
+    c.ensures('a-line-is-open-afterwards-unless-the-text-ended-it', "self._line_pending == (not output.endswith('\\n'))")
+
     c = contract(SO, 'StdOutOutput.newline', serves=['C19'], name='StdOutOutput.newline[pending=%s]' % pend)
     def _setup(b, case, pend=pend):
         b.ghost('Out', PyList())
@@ -77,6 +86,33 @@ def _setup(b, case):
 c.setup(_setup)
 # whether the unterminated last line gets a final line break is not stated by the property: both accepted
 c.ensures('text-space-text-newline-text-then-the-next-script-starts-unseparated', "out_is(x, ' ', y, '\\n', z, '\\n', x) or out_is(x, ' ', y, '\\n', z, x)")
+
+# ---- printf and print on one line / on successive lines
+for fmt, ends_line in (('v={}', False), ('v={}\\n', True), ('{}', False), ('{}\\n\\n', True)):
+    c = contract(VI, 'printf_then_print', serves=['C19'], name='lemma:printf %r a; print b (production binding)' % fmt, src='''
+def printf_then_print(self, a, b):
+    from bardolph.lib import std_out_output, injection
+    from bardolph.vm.instruction import Instruction
+    from bardolph.vm.vm_codes import OpCode
+    injection.configure()
+    std_out_output.configure()
+    self._reg.result = a
+    self.out(Instruction(OpCode.OUT, IoOp.REGISTER, Register.RESULT))
+    self.out(Instruction(OpCode.OUT, IoOp.PRINTF, %r))
+    self._reg.result = b
+    self.out(Instruction(OpCode.OUT, IoOp.REGISTER, Register.RESULT))
+    self.out(Instruction(OpCode.OUT, IoOp.PRINT))
+''' % fmt)
+    def _setup(b, case):
+        m = lib.machine(b, 'LOGICAL', lib.light_set_with(b, {}))
+        b.ghost('Out', PyList())
+        return {'self': m.attrs['_vm_io'], 'a': b.sym('int', 'a'), 'b': b.sym('int', 'b')}
+    c.setup(_setup)
+    real = fmt.replace('\\n', '\n')
+    if ends_line:
+        c.ensures('the-print-starts-its-line-unseparated', 'out_is(%r.format(a), b)' % real)
+    else:
+        c.ensures('one-space-between-successive-outputs-on-a-line', "out_is(%r.format(a), ' ', b)" % real)
 
 # ---- printf
 for fmt, nfields in (('{} and {}\\n', 2), ('{1}-{0} {hue:.1f} {v}', 2), ('no fields', 0), ('{:>6} {saturation} {w}', 1)):
@@ -134,7 +170,8 @@ c.ensures('a-prints-its-own-value', 'out_is(x)')
 from . import parserlib as PL
 IOP = 'bardolph/parser/io_parser.py'
 for how in ('literal', 'macro'):
-    for fmt, npos in (('{} and {}\\n', 2), ('{1}-{0} {hue:.1f} {v}', 2), ('no fields', 0), ('{:>6} {saturation} {w}', 1), ('{{}} {}', 1)):
+    for fmt, npos in (('{} and {}\\n', 2), ('{1}-{0} {hue:.1f} {v}', 2), ('no fields', 0), ('{:>6} {saturation} {w}', 1), ('{{}} {}', 1),
+                      ('{10}{0}', 2)):       # a field number of two digits is a positional field like any other (as in str.format)
         c = contract(IOP, 'IoParser.printf', serves=['C19', 'C06'], uses=('parser',), name='IoParser.printf[%s %r]' % (how, fmt))
         def _setup(b, case, how=how, fmt=fmt):
             if how == 'literal':
